@@ -1,6 +1,7 @@
 (* C04 - split() returns, in order, the stripped text of exactly the statements parse() returns:
    non-empty pieces at increasing, non-overlapping positions with whitespace-only gaps; re-splitting
    a piece (token level: always one statement; text level: refuted, with a conditional theorem). *)
+From SqlModel.Gen Require LexPins.   (* the scan loop, is_keyword, consume and the class-level state of sqlparse/lexer.py have the pinned shape *)
 From SqlModel Require Import Base PyStr Lexer SplitDefs Splitter Node.
 From SqlModel.Gen Require Import CaseTabs.
 From SqlModel.Inst Require Import Cur.
